@@ -25,14 +25,16 @@ def _alarm(signum, frame):
 
 _ADAPTER = None
 _TIMEOUTS = [0]
+_STOP = None        # shared flag: the verdict is clear (hundreds of divergences), workers skip what is still queued
 
 
 _REPO = ['/repo']
 
 
-def _init_worker(adapter_mod, adapter_args, repo):
+def _init_worker(adapter_mod, adapter_args, repo, stop=None):
     _REPO[0] = repo
-    global _ADAPTER
+    global _ADAPTER, _STOP
+    _STOP = stop
     os.environ['VERIF_REPO'] = repo
     cwd = os.path.join(os.environ.get('VERIF_RUNDIR') or WORK, 'cwd-%d' % os.getpid())
     os.makedirs(cwd, exist_ok=True)
@@ -58,7 +60,13 @@ def _run_batch(lines):
             out['errors'].append('unparsable TLC line: %r' % (raw[:120],))
             continue
         limit = int(getattr(_ADAPTER, 'case_timeout', 20))
-        if _TIMEOUTS[0] >= 2:
+        if _STOP is not None and _STOP.value:
+            out['skipped_clear'] = out.get('skipped_clear', 0) + 1
+            continue
+        if _TIMEOUTS[0] >= 3:
+            out['skipped'] = out.get('skipped', 0) + 1    # this tree hangs: three timeouts are reported, the rest is skipped
+            continue
+        if _TIMEOUTS[0] >= 1:
             limit = max(2, limit // 8)      # the tree under test hangs: do not spend the full limit on every further case
         signal.alarm(limit)
         try:
@@ -105,7 +113,9 @@ class Engine:
     def __init__(self, adapter_mod, adapter_args=None, workers=None, batch=100, repo=None):
         self.repo = repo or os.environ.get('VERIF_REPO', '/repo')
         self.workers = workers or max(2, (os.cpu_count() or 4) - 4)
-        self.pool = mp.get_context('fork').Pool(self.workers, _init_worker, (adapter_mod, adapter_args, self.repo))
+        ctx = mp.get_context('fork')
+        self.stop = ctx.Value('b', 0)
+        self.pool = ctx.Pool(self.workers, _init_worker, (adapter_mod, adapter_args, self.repo, self.stop))
         self.batch = batch
         self.buf = []
         self.pending = []
@@ -113,7 +123,10 @@ class Engine:
                     'features': {}, 'errors': []}
 
     def feed(self, item):
-        if len(self.tot['div']) >= 300:
+        while self.pending and self.pending[0].ready():
+            self._collect(self.pending.pop(0))
+        if len(self.tot['div']) >= 300 or self.tot.get('skipped_after_timeouts', 0) > 0:
+            self.stop.value = 1
             self.tot['skipped_after_many_divergences'] = self.tot.get('skipped_after_many_divergences', 0) + 1
             return          # hundreds of divergences already: the verdict is clear, save the time
         self.buf.append(item)
@@ -144,6 +157,8 @@ class Engine:
             if len(t['samples']) < 3:
                 t['samples'].append(s)
         t['errors'].extend(r['errors'][:5])
+        t['skipped_after_timeouts'] = t.get('skipped_after_timeouts', 0) + r.get('skipped', 0)
+        t['skipped_after_many_divergences'] = t.get('skipped_after_many_divergences', 0) + r.get('skipped_clear', 0)
 
     def finish(self):
         self._flush()
